@@ -988,9 +988,82 @@ pub fn generate(rng: &mut Rng, tier: Tier, emit0: &mut dyn FnMut(String)) {
     let quick = tier == Tier::Quick;
     let samples = if quick { 10 } else { 16 };
 
+    // 2. pool cases (generated first, emitted spread among the plan cases so that the runner's chunks share them): every shard count 1..8 x pool sizes; every shard requested, then out-of-range / huge shards
+    let pool_case = |rng: &mut Rng, kind: &str, n: u16, msb: u8, size: String, port: &str, emit: &mut dyn FnMut(String)| {
+        let reqs: Vec<String> = if kind == "pool" {
+            let mut v: Vec<i64> = (0..n as i64).collect();
+            v.extend_from_slice(&[n as i64, n as i64 + 1, 65535, 65536, 65536 + (n as i64 - 1), (1i64 << 32) - 1]);
+            for _ in 0..4 {
+                v.push(rng.below(n as u64) as i64);
+            }
+            v.iter().map(|x| x.to_string()).collect()
+        } else {
+            // tokens: the extremes, shard boundaries (smallest token of each shard and its predecessor), random
+            let mut v: Vec<i64> = vec![i64::MIN, i64::MIN + 1, -1, 0, 1, i64::MAX - 1, i64::MAX];
+            for s in 1..n as u128 {
+                let b = ((s << 64) + (n as u128 - 1)) / n as u128; // ceil(s * 2^64 / n) in the shifted space
+                let step = 1u128 << msb;
+                let sb = b.div_ceil(step) * step;
+                if sb < 1u128 << 64 {
+                    let low = (sb >> msb) as u64;
+                    let high = if msb == 0 { 0 } else { rng.next() << (64 - msb as u32) };
+                    let biased = high | low;
+                    v.push(biased.wrapping_sub(1u64 << 63) as i64);
+                    v.push(biased.wrapping_sub(1).wrapping_sub(1u64 << 63) as i64);
+                }
+            }
+            for _ in 0..6 {
+                v.push(rng.i64_boundary());
+            }
+            v.iter().map(|x| x.to_string()).collect()
+        };
+        emit(format!("{} {} {} {} {} {}", kind, n, msb, size, port, reqs.join(",")));
+    };
+    let mut pool_lines: Vec<String> = Vec::new();
+    let collect: &mut dyn FnMut(String) = &mut |l: String| pool_lines.push(l);
+    let rounds = if quick { 1 } else { 6 };
+    for round in 0..rounds {
+        // the server reports the NEXT shard for shard-aware-port connections (NAT emulation): connections must be filed
+        // under the shard the server reports, not the one the driver aimed at
+        if round % 2 == 0 {
+            for n in [2u16, 3, 4, 5, 8] {
+                pool_case(rng, "pool", n, 12, "S1".into(), "q", collect);
+            }
+            pool_case(rng, "pool", 3, 12, "S2".into(), "q", collect);
+            pool_case(rng, "route", 3, 12, "S1".into(), "q", collect);
+            pool_case(rng, "route", 4, 0, "S1".into(), "q", collect);
+        }
+        for n in 1..=8u16 {
+            let msb = *rng.pick(&[0u8, 1, 12, 12, 12, 31, 63]);
+            pool_case(rng, "pool", n, msb, "S1".into(), "p", collect);
+            let h = format!("H{}", rng.range(1, n as i64 + 1));
+            pool_case(rng, "pool", n, 12, h, "p", collect);
+            pool_case(rng, "route", n, msb, "S1".into(), "p", collect);
+            let h = format!("H{}", rng.range(1, (n as i64 / 2).max(1)));
+            let port = if rng.bool() { "p" } else { "n" };
+            pool_case(rng, "route", n, 12, h, port, collect);
+            if n <= 4 {
+                pool_case(rng, "pool", n, 12, "S2".into(), "p", collect);
+            }
+        }
+        // PerShard through the ordinary port only (connections land where the server puts them; excess connections)
+        // (3 and 5: the kernel hands out ephemeral ports in steps of two, so an even shard count never fills)
+        for n in [3u16, 5] {
+            pool_case(rng, "pool", n, 12, "S1".into(), "n", collect);
+            pool_case(rng, "route", n, 12, "S1".into(), "n", collect);
+        }
+    }
+
     // 1. plan cases: random topologies x liveness x keyspaces x (ring | tablet) tables x policy settings x tokens
     let shape = TopoShape { max_nodes: 7, max_dcs: 3, max_racks: 3, max_vnodes: 3, dups: 1 };
-    for _ in 0..if quick { 900 } else { 14000 } {
+    let n_topo = if quick { 900 } else { 14000 };
+    let stride = (n_topo / (pool_lines.len() + 1)).max(1);
+    for topo_i in 0..n_topo {
+        if topo_i % stride == stride / 2 {
+            if let Some(l) = pool_lines.pop() {
+                emit(l);
+            }
+        }
         let mut peers = gen_topology(rng, shape);
         let nks = rng.range(1, 3) as usize;
         let kss: Vec<Strat> = (0..nks)
@@ -1077,70 +1150,10 @@ pub fn generate(rng: &mut Rng, tier: Tier, emit0: &mut dyn FnMut(String)) {
             }
         }
     }
-
-    // 2. pool cases: every shard count 1..8 x pool sizes; every shard requested, then out-of-range / huge shards
-    let pool_case = |rng: &mut Rng, kind: &str, n: u16, msb: u8, size: String, port: &str, emit: &mut dyn FnMut(String)| {
-        let reqs: Vec<String> = if kind == "pool" {
-            let mut v: Vec<i64> = (0..n as i64).collect();
-            v.extend_from_slice(&[n as i64, n as i64 + 1, 65535, 65536, 65536 + (n as i64 - 1), (1i64 << 32) - 1]);
-            for _ in 0..4 {
-                v.push(rng.below(n as u64) as i64);
-            }
-            v.iter().map(|x| x.to_string()).collect()
-        } else {
-            // tokens: the extremes, shard boundaries (smallest token of each shard and its predecessor), random
-            let mut v: Vec<i64> = vec![i64::MIN, i64::MIN + 1, -1, 0, 1, i64::MAX - 1, i64::MAX];
-            for s in 1..n as u128 {
-                let b = ((s << 64) + (n as u128 - 1)) / n as u128; // ceil(s * 2^64 / n) in the shifted space
-                let step = 1u128 << msb;
-                let sb = b.div_ceil(step) * step;
-                if sb < 1u128 << 64 {
-                    let low = (sb >> msb) as u64;
-                    let high = if msb == 0 { 0 } else { rng.next() << (64 - msb as u32) };
-                    let biased = high | low;
-                    v.push(biased.wrapping_sub(1u64 << 63) as i64);
-                    v.push(biased.wrapping_sub(1).wrapping_sub(1u64 << 63) as i64);
-                }
-            }
-            for _ in 0..6 {
-                v.push(rng.i64_boundary());
-            }
-            v.iter().map(|x| x.to_string()).collect()
-        };
-        emit(format!("{} {} {} {} {} {}", kind, n, msb, size, port, reqs.join(",")));
-    };
-    let rounds = if quick { 1 } else { 6 };
-    for round in 0..rounds {
-        // the server reports the NEXT shard for shard-aware-port connections (NAT emulation): connections must be filed
-        // under the shard the server reports, not the one the driver aimed at
-        if round % 2 == 0 {
-            for n in [2u16, 3, 4, 5, 8] {
-                pool_case(rng, "pool", n, 12, "S1".into(), "q", emit);
-            }
-            pool_case(rng, "pool", 3, 12, "S2".into(), "q", emit);
-            pool_case(rng, "route", 3, 12, "S1".into(), "q", emit);
-            pool_case(rng, "route", 4, 0, "S1".into(), "q", emit);
-        }
-        for n in 1..=8u16 {
-            let msb = *rng.pick(&[0u8, 1, 12, 12, 12, 31, 63]);
-            pool_case(rng, "pool", n, msb, "S1".into(), "p", emit);
-            let h = format!("H{}", rng.range(1, n as i64 + 1));
-            pool_case(rng, "pool", n, 12, h, "p", emit);
-            pool_case(rng, "route", n, msb, "S1".into(), "p", emit);
-            let h = format!("H{}", rng.range(1, (n as i64 / 2).max(1)));
-            let port = if rng.bool() { "p" } else { "n" };
-            pool_case(rng, "route", n, 12, h, port, emit);
-            if n <= 4 {
-                pool_case(rng, "pool", n, 12, "S2".into(), "p", emit);
-            }
-        }
-        // PerShard through the ordinary port only (connections land where the server puts them; excess connections)
-        // (3 and 5: the kernel hands out ephemeral ports in steps of two, so an even shard count never fills)
-        for n in [3u16, 5] {
-            pool_case(rng, "pool", n, 12, "S1".into(), "n", emit);
-            pool_case(rng, "route", n, 12, "S1".into(), "n", emit);
-        }
+    for l in pool_lines.drain(..) {
+        emit(l);
     }
+
 
     // 3. malformed case lines
     for bad in [
